@@ -199,6 +199,7 @@ struct Cfg {
     dtmax: f64,
     tol: f64,
     y0: Vec<C64>,
+    collect: bool,
 }
 
 /// what the builder reported before an iterator existed
@@ -230,9 +231,23 @@ macro_rules! build_adaptive {
             .map(|b| b.with_derivative(move |t: f64, y: &[$n], _: &mut ()| deriv_impl::<$n, _>(&sh, dimv, t, y)))
             .and_then(|b| b.solve(()));
         match r {
-            Ok(it) => Built::Iter(Box::new(it.map(|item| {
-                item.map(|(t, y)| (t, y.iter().map(|v| v.to_c()).collect::<Vec<C64>>()))
-            }))),
+            Ok(it) => {
+                if $cfg.collect {
+                    // exercise IVPIterator::collect_vec: either the whole path or the error
+                    let items: Vec<Item> = match it.collect_vec() {
+                        Ok(path) => path
+                            .into_iter()
+                            .map(|(t, y)| Ok((t, y.iter().map(|v| v.to_c()).collect::<Vec<C64>>())))
+                            .collect(),
+                        Err(e) => vec![Err(e)],
+                    };
+                    Built::Iter(Box::new(items.into_iter()))
+                } else {
+                    Built::Iter(Box::new(it.map(|item| {
+                        item.map(|(t, y)| (t, y.iter().map(|v| v.to_c()).collect::<Vec<C64>>()))
+                    })))
+                }
+            }
             Err(e) => Built::Err(errname(&e)),
         }
     }};
@@ -252,9 +267,23 @@ macro_rules! build_euler {
             .map(|b| b.with_derivative(move |t: f64, y: &[$n], _: &mut ()| deriv_impl::<$n, _>(&sh, dimv, t, y)))
             .and_then(|b| b.solve(()));
         match r {
-            Ok(it) => Built::Iter(Box::new(it.map(|item| {
-                item.map(|(t, y)| (t, y.iter().map(|v| v.to_c()).collect::<Vec<C64>>()))
-            }))),
+            Ok(it) => {
+                if $cfg.collect {
+                    // exercise IVPIterator::collect_vec: either the whole path or the error
+                    let items: Vec<Item> = match it.collect_vec() {
+                        Ok(path) => path
+                            .into_iter()
+                            .map(|(t, y)| Ok((t, y.iter().map(|v| v.to_c()).collect::<Vec<C64>>())))
+                            .collect(),
+                        Err(e) => vec![Err(e)],
+                    };
+                    Built::Iter(Box::new(items.into_iter()))
+                } else {
+                    Built::Iter(Box::new(it.map(|item| {
+                        item.map(|(t, y)| (t, y.iter().map(|v| v.to_c()).collect::<Vec<C64>>()))
+                    })))
+                }
+            }
             Err(e) => Built::Err(errname(&e)),
         }
     }};
@@ -313,6 +342,7 @@ fn run_case(case: &Value, out: &mut Out) {
         dtmax: jf(&case["dtmax"]),
         tol: jf(&case["tol"]),
         y0: jcv(&case["y0"]),
+        collect: case["collect"].as_bool().unwrap_or(false),
     };
     let want_snaps = case["snaps"].as_bool().unwrap_or(false);
     let extra_next = case["extra_next"].as_i64().unwrap_or(2);
